@@ -45,10 +45,35 @@ static std::basic_string<CT> transcode(const S &utf8)
     return out;
 }
 
+// ST::writef is specified by its bytes alone ("byte-identical to ST::format"): whatever formatting state the destination
+// stream carries (a pending width, a fill character, adjustment and numeric flags) must not show in the output.  One case
+// in three hands writef a stream in such a state.
+template <typename OS>
+static void dress_stream(OS &os, const S &fmt, int shape)
+{
+    uint64_t h = vrt::fnv1a(fmt.data(), fmt.size(), static_cast<uint64_t>(shape) + 977);
+    if (h % 3 != 0) return;
+    h /= 3;
+    static const int widths[] = {1, 5, 12, 40};
+    os.width(widths[h % 4]); h /= 4;
+    // (libstdc++ has no ctype facet for char16_t/char32_t: basic_ios::fill() itself throws std::bad_cast there)
+    if constexpr (sizeof(typename OS::char_type) == 1 || std::is_same<typename OS::char_type, wchar_t>::value)
+        os.fill(static_cast<typename OS::char_type>("*0 _"[h % 4]));
+    h /= 4;
+    switch (h % 3) { case 0: os.setf(std::ios_base::left, std::ios_base::adjustfield); break; case 1: os.setf(std::ios_base::internal, std::ios_base::adjustfield); break; default: break; }
+    h /= 3;
+    if (h & 1) os.setf(std::ios_base::hex, std::ios_base::basefield);
+    if (h & 2) os.setf(std::ios_base::showbase | std::ios_base::uppercase);
+    if (h & 4) os.setf(std::ios_base::boolalpha | std::ios_base::showpos);
+    if (h & 8) os.precision(3);
+    vrt::count("writef.stream_with_pending_state");
+}
+
 template <typename CT>
 static void wide_sink(const char *name, int shape, const Values &v, const char *fmt, const S &want8, const std::string &ctx)
 {
     std::basic_ostringstream<CT> os;
+    dress_stream(os, S(fmt), shape);
     vrt::evals();
     try {
         call_shape(shape, v, fmt, nullptr, [&](const char *f, auto &&...a) { ST::writef(os, f, a...); });
@@ -111,6 +136,7 @@ static void sink_case(int shape, const Values &v, const S &fmt)
     // narrow stream sink
     {
         std::ostringstream os;
+        dress_stream(os, fmt, shape);
         vrt::evals();
         try {
             call_shape(shape, v, f.data(), nullptr, [&](const char *fs, auto &&...a) { ST::writef(os, fs, a...); });
@@ -206,6 +232,8 @@ static void body()
     vrt::require("format.non_ascii_output", 1000);
     vrt::require("format.long_output", 20);
     vrt::require("insert.cases", 1000);
+    vrt::require("insert.with_U+0000", 100);
+    vrt::require("writef.stream_with_pending_state", 1000);
     vrt::require("extract.tokens", 1000);
     vrt::require("pad_sweep.lengths", 301);
 
@@ -253,7 +281,9 @@ static void body()
         // valid text of every width class, around the small-string limit
         std::vector<unsigned long> cps;
         size_t n = gen::pick_len(r) % 40;
-        for (size_t k = 0; k < n; ++k) cps.push_back(r.chance(1, 6) ? ' ' : random_cp(r));
+        const bool with_nul = r.chance(1, 5);     // "all ST::string values": U+0000 is a character like any other
+        for (size_t k = 0; k < n; ++k) cps.push_back(r.chance(1, 6) ? ' ' : (with_nul && r.chance(1, 4)) ? 0 : random_cp(r));
+        if (with_nul && n) vrt::count("insert.with_U+0000");
         S text;
         for (auto c : cps) ref::enc_utf8(text, c);
         insert_case<char>("char", text);
